@@ -82,13 +82,17 @@ func vFSNames(dir string) []string {
 	return out
 }
 
-// vFSOpenFDs: open descriptors on model files (natively: entries of /proc/self/fd under the root).
+// vFSOpenFDs: open descriptors on regular model files (natively: entries of /proc/self/fd under the
+// root that are not directories; a directory handle held transiently by a listing is not a log file).
 func vFSOpenFDs() int {
 	es, _ := os.ReadDir("/proc/self/fd")
 	n := 0
 	for _, e := range es {
 		t, err := os.Readlink("/proc/self/fd/" + e.Name())
 		if err == nil && vNativeRoot != "" && len(t) >= len(vNativeRoot) && t[:len(vNativeRoot)] == vNativeRoot {
+			if st, err := os.Stat(t); err == nil && st.IsDir() {
+				continue
+			}
 			n++
 		}
 	}
